@@ -115,10 +115,12 @@ func extractPipeCfg(x *extractor) {
 	}
 	reg := p.regPool && p.regCmd && p.incomingOK && p.readyOK
 	asc := p.comparator == "<"
-	u.pf("/-- packet-manager.go as it is in the working tree. -/\n")
-	u.pf("def pipeCfg : PipeCfg :=\n  { poolKinds := [%s], closeWaits := %s, registerBeforeHandoff := %s, headMatch := %s,\n    sortIncoming := %s, sortOutgoing := %s, workers := %d }\n\n",
-		strings.Join(kinds, ", "), leanBool(p.closeWaits), leanBool(reg), leanBool(p.headMatch && p.popsBothHeads),
-		leanBool(p.sortIncoming && asc), leanBool(p.sortOut && asc), p.workers)
+	emitCfg := func(drain bool) {
+		u.pf("/-- packet-manager.go (and the two Serve functions' wait for the controller) as they are in the working tree. -/\n")
+		u.pf("def pipeCfg : PipeCfg :=\n  { poolKinds := [%s], closeWaits := %s, registerBeforeHandoff := %s, headMatch := %s,\n    sortIncoming := %s, sortOutgoing := %s, workers := %d, drainOnFini := %s }\n\n",
+			strings.Join(kinds, ", "), leanBool(p.closeWaits), leanBool(reg), leanBool(p.headMatch && p.popsBothHeads),
+			leanBool(p.sortIncoming && asc), leanBool(p.sortOut && asc), p.workers, leanBool(drain))
+	}
 	u.pf("-- the conjuncts of registerBeforeHandoff\n")
 	u.pf("def registerBeforePoolHandoff : Bool := %s\n", leanBool(p.regPool))
 	u.pf("def registerBeforeCmdHandoff : Bool := %s\n", leanBool(p.regCmd))
@@ -150,6 +152,9 @@ func extractPipeCfg(x *extractor) {
 		u.fail("controller defers close(s.done) but packetManager.wait is missing or not `<-s.done`")
 	}
 	u.pf("def serveWaitsForController : Bool := %s\n", leanBool(w1 && w2 && waitOK && p.deferCloseDone))
+	// the model's drainOnFini: the controller drains on fini AND Serve waits for it (otherwise the
+	// connection may be closed under the controller's feet)
+	drainModel := p.drainsOnFini && w1 && w2 && waitOK && p.deferCloseDone
 	u.pf("def newOrderIDPreIncrements : Bool := %s\n", leanBool(p.newOrderIDPreIncr))
 	u.pf("def getNextOrderIDIsCountPlusOne : Bool := %s\n", leanBool(p.getNextIsPlusOne))
 	u.pf("def maybeSendPopsBothHeads : Bool := %s\n", leanBool(p.popsBothHeads))
@@ -157,7 +162,9 @@ func extractPipeCfg(x *extractor) {
 
 	x10ServeLoop(pi, u, "Server.Serve", "svr", "OS")
 	x10ServeLoop(pi, u, "RequestServer.serveLoop", "rs", "RS")
-	u.pf("\nend Sftp.G\n")
+	u.pf("\n")
+	emitCfg(drainModel)
+	u.pf("end Sftp.G\n")
 }
 
 // ---- workerChan ----
